@@ -4,10 +4,13 @@ import lib
 from props import shortp8
 
 ID = 'C03'
-GEN_FILES = ['K_p8file', 'K_gfx', 'K_gff', 'K_map', 'K_sfx', 'K_music', 'T_p8scii', 'T_lexer']
+GEN_FILES = ['K_p8file', 'K_gfx', 'K_gff', 'K_map', 'K_sfx', 'K_music', 'T_p8scii', 'T_lexer',
+             # source pins of the hand-modelled modules (gen/kernels_pins.py)
+             'T_pins_p8', 'T_pins_file', 'T_pins_util', 'T_pins_fmtbase', 'T_pins_gfx', 'T_pins_map', 'T_pins_gff', 'T_pins_sfx', 'T_pins_music', 'T_pins_game']
 COQ_PROPERTY = 'theories/Properties/C03.vo'
 COQ_EXTRA = ['theories/Generated/K_gfx_selftest.vo', 'theories/Generated/K_sfx_selftest.vo',
-             'theories/Generated/K_music_selftest.vo']
+             'theories/Generated/K_music_selftest.vo',
+             'theories/Proofs/P8Pins.vo', 'theories/Proofs/FilePins.vo', 'theories/Proofs/UtilPins.vo', 'theories/Proofs/FmtBasePins.vo', 'theories/Proofs/GfxPins.vo', 'theories/Proofs/MapPins.vo', 'theories/Proofs/GffPins.vo', 'theories/Proofs/SfxPins.vo', 'theories/Proofs/MusicPins.vo', 'theories/Proofs/GamePins.vo']
 MODEL = ('ExC03', 'c03_main.ml')
 MONITOR = ('MonC03', 'c03_mon_main.ml')
 SIZES = {'gfx': 8192, 'gff': 256, 'map': 4096, 'sfx': 4352, 'music': 256}
